@@ -41,13 +41,16 @@ RULE = ('strings from a grammar of prompt fragments, brackets, quotes, backslash
 ASSUMPTIONS = [
     'CPython ast.parse facts are supplied to the model per chunk; the google splitter is an oracle input (its own model belongs to C07)',
     'str.lower in the freeform skip-pattern test is modelled for ASCII',
-    'a hang is detected by a 5 s alarm per case (SIGALRM, main thread of each worker)',
+    'a hang is detected by a 5 s CPU-time alarm per case (ITIMER_PROF, main thread of each worker; wall-clock backstop 300 s)',
 ]
 STYLES = ('auto', 'google', 'freeform')
 
 WITNESS = {
     # google / auto: the blocks before the malformed one were already yielded
     'K-C14-a': "Example:\n    >>> print(1)\n    1\n\nExample:\n    >>> x = (\n",
+    # a malformed directive in a comment that is indented after the prompt is not seen by the parser (no PS1 group covers
+    # the line); the example is collected without a warning and DocTest.run raises when it reads part.directives
+    'K-C14-b': ">>>   # xdoctest: +SKIP(\n",
 }
 
 
@@ -62,11 +65,17 @@ def _alarm(signum, frame):
 
 @contextlib.contextmanager
 def _limit(seconds=5.0):
+    """a hang of the parser is a CPU loop: the limit is on the CPU time of this process (ITIMER_PROF), so that a
+    heavily loaded machine (where a 50 ms case can take many wall-clock seconds) never produces a false 'hang';
+    a generous wall-clock alarm (60x) stays as a backstop for a blocking hang"""
+    signal.signal(signal.SIGPROF, _alarm)
     signal.signal(signal.SIGALRM, _alarm)
-    signal.setitimer(signal.ITIMER_REAL, seconds)
+    signal.setitimer(signal.ITIMER_PROF, seconds)
+    signal.setitimer(signal.ITIMER_REAL, 60.0 * seconds)
     try:
         yield
     finally:
+        signal.setitimer(signal.ITIMER_PROF, 0)
         signal.setitimer(signal.ITIMER_REAL, 0)
 
 
@@ -86,23 +95,37 @@ def real_outcome_class(docstr):
     return parsercorr.normalize_error(r.split('\t')[0] if r.startswith('ok') else r)
 
 
+def _late_error(example):
+    """syntax that parse accepted must not blow up afterwards: the directives of every part of a collected example
+    (read by DocTest.run outside any try block) can be read"""
+    for p in example._parts:
+        try:
+            p.directives
+        except Exception as ex:
+            return 'late:%s reading the directives of a collected part' % type(ex).__name__
+    return None
+
+
 def real_docexamples(docstr, style):
     """(n parts of each example, warned, class of the escaping exception or None)"""
     from xdoctest import core
     exs = []
     esc = 'none'
+    late = None
     with warnings.catch_warnings(record=True) as w, contextlib.redirect_stdout(io.StringIO()):
         warnings.simplefilter('always')
         try:
             with _limit():
                 for e in core.parse_docstr_examples(docstr, callname='f', style=style):
                     exs.append(len(e._parts))
+                    late = late or _late_error(e)
         except _Timeout:
             exs = []
             try:
                 with _limit(20.0):
                     for e in core.parse_docstr_examples(docstr, callname='f', style=style):
                         exs.append(len(e._parts))
+                        late = late or _late_error(e)
             except _Timeout:
                 esc = 'hang'
             except Exception as ex:
@@ -110,6 +133,8 @@ def real_docexamples(docstr, style):
         except Exception as ex:
             esc = 'other:' + type(ex).__name__
         nwarn = len([x for x in w if str(x.message).startswith('Cannot scrape callname=')])
+    if esc == 'none' and late:
+        esc = late
     return exs, nwarn > 0, esc
 
 
@@ -166,7 +191,8 @@ def canon_model(ans):
 VALID_BODIES = ['>>> print(1 + 1)\n2', '>>> x = 1\n>>> print(x)\n1', '>>> y = [1,\n...      2]\n>>> y\n[1, 2]', 'no test here',
                 '>>> # xdoctest: +SKIP\n>>> boom()']
 BROKEN_BODIES = ['>>> x = (', '>>> x = [1,\n2]', '>>> def f(:\n...     pass', ">>> s = '''abc", '>>> print(1))', '>>> 1 # xdoctest: +SKIP(',
-                 '>>> if x:\n... pass']
+                 '>>> if x:\n... pass', '>>> 1 # XDOCTEST: +SKIP(', '>>> 1 # XDoc: +SKIP)', '>>> 1  # DOCTEST: +REQUIRES(a',
+                 '>>> # XDOCTEST: +REQUIRES(module:os\n>>> 1', '>>> f(1)  # Xdoc: +SKIP)(']
 # tags the google splitter turns into blocks of their own; `Benchmark:` / `Script:` / `CommandLine:` are plain text for it
 # (they only matter to the freeform skip patterns)
 EXAMPLE_TAGS = ('Example', 'Examples', 'Doctest')
@@ -220,6 +246,8 @@ def _shard(args):
     for _ in range(n_google):
         t, blocks = gen_google(rng)
         cases.append(('google', t, blocks))
+    for _ in range(n_google):
+        cases.append(('directive', G.fuzz_directive_docstring(rng), None))
     docs = [c[1] for c in cases]
     run1 = lambda lines: driver.run_lines(lines, jobs=1)
     model_parse = parsercorr.model_parse(docs, run1)
@@ -244,7 +272,11 @@ def _shard(args):
             exs, warned, esc = real_docexamples(text, style)
             r = canon_real(exs, warned, esc)
             out['n'] += 1
-            if esc != 'none':
+            if esc.startswith('late:') and _is_kc14b(text, style):
+                out['tags']['K-C14-b shape'] = out['tags'].get('K-C14-b shape', 0) + 1
+                if out['tags']['K-C14-b shape'] <= 2:
+                    out['exp'].append((text, style, 'docexamples', 'no exception leaves parse_docstr_examples', r, 'known-shape'))
+            elif esc != 'none':
                 out['exp'].append((text, style, 'docexamples', 'no exception leaves parse_docstr_examples', r))
                 if esc == 'hang':
                     hung = True
@@ -280,8 +312,17 @@ def _shard(args):
 
 
 # ------------------------------------------------------------------ modules: one malformed docstring among valid ones
+CONTROL = ['\r', '\x0b', '\x0c', '\x1c', '\x1d', '\x1e', '\x85', '\u2028', '\u2029']
+
+
+def _raw_ok(doc):
+    return '"""' not in doc and '\\' not in doc and '\x00' not in doc and not doc.endswith('"')
+
+
 def gen_module(rng, k):
-    """returns (source, names, bad) : function f<i> has a valid one-example docstring unless i in bad"""
+    """returns (source, names, bad) : function f<i> has a valid one-example docstring (marked `# SIBLING`) unless i in bad.
+    A docstring is written either as the repr of its text or RAW between triple quotes, so that control characters
+    (\\r \\x0b \\x0c \\x1c-\\x1e \\x85 \\u2028 \\u2029) really are in the source file"""
     n = rng.randint(3, 6)
     bad = {}
     src = []
@@ -289,14 +330,53 @@ def gen_module(rng, k):
     for i in range(n):
         name = 'f%d_%d' % (k, i)
         names.append(name)
-        if rng.random() < 0.35:
+        if rng.random() < 0.4:
             r = rng.random()
-            doc = rng.choice(BROKEN_BODIES) if r < 0.5 else (G.fuzz_docstring(rng) if r < 0.8 else gen_google(rng)[0])
+            if r < 0.35:
+                doc = rng.choice(BROKEN_BODIES)
+            elif r < 0.55:
+                doc = G.fuzz_docstring(rng)
+            elif r < 0.7:
+                doc = gen_google(rng)[0]
+            elif r < 0.85:
+                doc = G.fuzz_directive_docstring(rng)
+            else:
+                doc = rng.choice(BROKEN_BODIES)
+            if rng.random() < 0.5:
+                # control characters: progress-bar style carriage returns and friends, anywhere in the text
+                for _ in range(rng.randint(1, 5)):
+                    p = rng.randint(0, len(doc))
+                    doc = doc[:p] + rng.choice(CONTROL) + rng.choice(['', '    ', '  50%']) + doc[p:]
             bad[name] = doc
+            marker = '# MALFORMED %s' % name
         else:
             doc = 'Text of %s.\n\nExample:\n    >>> print(%d + 1)\n    %d\n' % (name, i, i + 1)
-        src.append('def %s():\n    %r\n    return %d\n' % (name, doc, i))
+            marker = '# SIBLING %s' % name
+        if _raw_ok(doc) and rng.random() < 0.6:
+            body = '"""' + doc + '"""'
+            if name not in bad:
+                body = '"""\n    ' + doc.replace('\n', '\n    ') + '"""'
+        else:
+            body = repr(doc)
+        src.append('%s\ndef %s():\n    %s\n    return %d\n' % (marker, name, body, i))
     return '\n'.join(src), names, bad
+
+
+def _run_collected(exs, siblings):
+    for e in exs:
+        e.mode = 'native'
+        try:
+            with contextlib.redirect_stdout(io.StringIO()), contextlib.redirect_stderr(io.StringIO()):
+                with _limit(20.0):
+                    r = e.run(on_error='return', verbose=0)
+        except _Timeout:
+            return 'run of %s hangs' % e.callname
+        except Exception as ex:
+            return 'run(on_error="return") of the example collected for %s raises %s: the examples after it never run' % (
+                e.callname, type(ex).__name__)
+        if e.callname in siblings and not r.get('passed'):
+            return 'sibling %s does not pass' % e.callname
+    return None
 
 
 def run_modules(ctx, corr, n_modules):
@@ -309,7 +389,12 @@ def run_modules(ctx, corr, n_modules):
             path = os.path.join(tmp, 'mod_c14_%d.py' % k)
             with open(path, 'w', encoding='utf8') as f:
                 f.write(source)
-            calldefs = static_analysis.parse_static_calldefs(fpath=path)
+            try:
+                calldefs = static_analysis.parse_static_calldefs(fpath=path)
+            except Exception as ex:
+                corr.expect_fail('module', {'module': source, 'style': 'auto'}, 'the module is analysed',
+                                 'escaped:' + type(ex).__name__, 'static analysis of a module with a malformed docstring raised')
+                continue
             docs = [(n, calldefs[n].docstr) for n in calldefs if calldefs[n].docstr is not None]
             model = model_docexamples([d for _n, d in docs], driver.run_lines)
             for si, style in enumerate(STYLES):
@@ -348,20 +433,60 @@ def run_modules(ctx, corr, n_modules):
                 if missing:
                     corr.expect_fail('module', inp, 'siblings collected: %r' % siblings, got, 'a valid sibling is not collected')
                     continue
-                # ... and runnable
-                for e in exs:
-                    if e.callname in siblings:
-                        e.mode = 'native'
-                        with contextlib.redirect_stdout(io.StringIO()):
-                            r = e.run(on_error='return', verbose=0)
-                        if not r.get('passed'):
-                            corr.expect_fail('module', inp, 'sibling %s passes' % e.callname, r.get('failed'), 'a valid sibling does not run')
+                # ... and runnable: the examples are run in collection order, as a runner would; an exception that
+                # leaves run(on_error='return') for an example of the malformed docstring stops everything after it
+                prob = _run_collected(exs, siblings)
+                if prob:
+                    corr.expect_fail('module', inp, 'siblings runnable', prob, 'a valid sibling does not run')
                 if bad:
                     corr.nontriv(('module', source, style))
             if k == 0:
                 corr.sample({'op': 'parse_doctestables', 'module': source[:400], 'malformed': sorted(bad)})
     finally:
         shutil.rmtree(tmp, ignore_errors=True)
+
+
+def run_fault_injection(ctx, corr):
+    """the splitter of the current tree can not raise MalformedDocstr (its only raise sits under `if False`), so the
+    branch of parse_docstr_examples / parse_google_docstr_examples that downgrades it is exercised by injection: the
+    splitter is replaced by one that raises MalformedDocstr; model: google oracle `M`"""
+    from xdoctest import core, exceptions
+    rng = ctx.sub_rng('inject')
+    docs = [gen_google(rng)[0] for _ in range(20)] + [G.fuzz_docstring(rng) for _ in range(20)] + ['', '>>> print(1)\n1']
+    orig = core.docscrape_google.split_google_docblocks
+
+    def raising(docstr):
+        raise exceptions.MalformedDocstr('injected')
+    # model
+    a1 = driver.run_lines(['chunks\t' + enc(t) for t in docs])
+    lines = []
+    for d, a in zip(docs, a1):
+        fs = []
+        if a.startswith('ok'):
+            for h in a.split('\t')[1:]:
+                fs.append(parsercorr.chunk_facts(dec(h[1:])) if h.startswith('H') else 'S')
+        for style in STYLES:
+            lines.append('\t'.join(['docexamples', style, enc('f'), enc(d), 'M', '%s=%s' % (enc(d), '/'.join(fs))]))
+    ans = driver.run_lines(lines)
+    core.docscrape_google.split_google_docblocks = raising
+    try:
+        for i, d in enumerate(docs):
+            for si, style in enumerate(STYLES):
+                exs, warned, esc = real_docexamples(d, style)
+                r = canon_real(exs, warned, esc)
+                m = canon_model(ans[i * 3 + si])
+                corr.count('inject-malformed')
+                inp = {'docstring': d, 'style': style, 'inject': 'MalformedDocstr'}
+                if esc != 'none' and not esc.startswith('late:'):
+                    corr.expect_fail('inject-malformed', inp, 'MalformedDocstr is downgraded to a warning', r,
+                                     'an exception left parse_docstr_examples')
+                elif r != m and not esc.startswith('late:'):
+                    corr.disagree('inject-malformed', inp, m, r)
+                if style == 'google' and (exs or not warned) and esc == 'none':
+                    corr.expect_fail('inject-malformed', inp, 'no example and a warning', r, 'MalformedDocstr in google style')
+                corr.nontriv(('inject', d, style))
+    finally:
+        core.docscrape_google.split_google_docblocks = orig
 
 
 def correspondence(ctx, corr):
@@ -381,7 +506,7 @@ def correspondence(ctx, corr):
             text, style, suite, expected, impl = item[:5]
             if len(item) == 6:
                 n_known_forwarded[0] += 1
-                if n_known_forwarded[0] > 6:
+                if n_known_forwarded[0] > 8:
                     continue
             inp = {'docstring': text, 'style': style}
             if suite == 'google-by-construction':
@@ -391,6 +516,7 @@ def correspondence(ctx, corr):
         for s in r['samples'][:1]:
             corr.sample(s)
     run_modules(ctx, corr, 40 if ctx.quick else 400)
+    run_fault_injection(ctx, corr)
 
 
 # ------------------------------------------------------------------ failing-input search (real code only)
@@ -439,7 +565,7 @@ def _module_fails(source, style):
         with open(path, 'w', encoding='utf8') as f:
             f.write(source)
         import re
-        siblings = re.findall(r"def (\w+)\(\):\n    'Text of \1", source)
+        siblings = re.findall(r"^# SIBLING (\w+)$", source, re.M)
         with warnings.catch_warnings(record=True), contextlib.redirect_stdout(io.StringIO()):
             warnings.simplefilter('always')
             try:
@@ -453,13 +579,9 @@ def _module_fails(source, style):
         missing = [n for n in siblings if got.count(n) != 1]
         if missing:
             return {'observed': 'collected %r' % got, 'expected_by_spec': 'siblings %r collected' % siblings}
-        for e in exs:
-            if e.callname in siblings:
-                e.mode = 'native'
-                with contextlib.redirect_stdout(io.StringIO()):
-                    r = e.run(on_error='return', verbose=0)
-                if not r.get('passed'):
-                    return {'observed': 'sibling %s does not pass' % e.callname, 'expected_by_spec': 'siblings runnable'}
+        prob = _run_collected(exs, siblings)
+        if prob:
+            return {'observed': prob, 'expected_by_spec': 'siblings runnable'}
         return None
     finally:
         shutil.rmtree(tmp, ignore_errors=True)
@@ -470,6 +592,11 @@ def search(ctx, corr, broken):
     # 1. what the correspondence already saw
     for e in corr.expect_failures:
         i = e['input']
+        if i.get('inject'):
+            f = _fails_injected(i['docstring'], i['style'])
+            if f:
+                found.append({'input': dict(i), **f})
+            continue
         if 'module' in i:
             f = _module_fails(i['module'], i['style'])
             if f:
@@ -484,8 +611,15 @@ def search(ctx, corr, broken):
             return found
     cands = [d['input']['docstring'] for d in corr.disagreements if 'docstring' in d['input']]
     rng = ctx.sub_rng('search')
+    for text in ('', '>>> print(1)\n1', 'Example:\n    >>> print(1)\n    1\n'):
+        for st in STYLES:
+            f = _fails_injected(text, st)
+            if f:
+                found.append({'input': {'docstring': text, 'style': st, 'inject': 'MalformedDocstr'}, **f})
+                return found
     for _ in range(2500 if ctx.quick else 20000):
         cands.append(G.fuzz_docstring(rng))
+        cands.append(G.fuzz_directive_docstring(rng))
         t, _e, _m = G.gen_docstring(rng, max_blocks=3)
         cands.append(G.mutate(rng, t))
     seen = set()
@@ -541,15 +675,54 @@ def _is_kc14a(text, style):
     return len(exs) == first_bad
 
 
+INDENTED_COMMENT = None
+
+
+def _is_kc14b(text, style):
+    """K-C14-b, narrow: the failure is a LATE error (parse accepted the text, reading the directives of a collected part
+    raises); the text has a source line carrying a comment that no PS1 statement covers - a comment-only line whose `#` is
+    indented after the prompt (`>>>   # ...`, or a prompt preceded by whitespace that is not a blank) or a `...`-prompted
+    line with a `#`; and with every such line rewritten as a
+    plain `>>> ` line (comment at the prompt column) the same text is contained (rejected with a warning, or fine)"""
+    import re
+    p1 = re.compile(r'^([ ]*)>>>[ ]{2,}#')
+    p2 = re.compile(r'^([ ]*)\.\.\.( ?)(?=.*#)')
+    t = text.expandtabs()
+    out = []
+    hit = False
+    p0 = re.compile(r'^(\s*)(?=>>>|\.\.\.)')
+    for line in t.splitlines(True):
+        # whitespace other than blanks in front of the prompt shifts the prompt column (the comment ends up indented)
+        new = p0.sub(lambda m: ' ' * len(m.group(1)), line)
+        new = p1.sub(lambda m: m.group(1) + '>>> #', new)
+        new = p2.sub(lambda m: m.group(1) + '>>>' + m.group(2), new)
+        new = p1.sub(lambda m: m.group(1) + '>>> #', new)
+        hit = hit or new != line
+        out.append(new)
+    if not hit:
+        return False
+    exs, warned, esc = real_docexamples(text, style or 'freeform')
+    if not esc.startswith('late:'):
+        return False
+    return _fails(''.join(out), style) is None
+
+
 def classify(ctx, hit):
     i = hit.get('input') or {}
     text, style = i.get('docstring'), i.get('style')
-    if not isinstance(text, str) or i.get('by_construction') != 'broken example block':
+    if not isinstance(text, str):
         return None
-    return 'K-C14-a' if _is_kc14a(text, style) else None
+    if i.get('by_construction') == 'broken example block':
+        return 'K-C14-a' if _is_kc14a(text, style) else None
+    if 'late:' in str(hit.get('impl', '')) + str(hit.get('observed', '')) and _is_kc14b(text, style):
+        return 'K-C14-b'
+    return None
 
 
 def replay_finding(ctx, finding):
+    if finding['id'] == 'K-C14-b':
+        exs, warned, esc = real_docexamples(WITNESS['K-C14-b'], 'freeform')
+        return exs == [1] and not warned and esc.startswith('late:AssertionError')
     if finding['id'] != 'K-C14-a':
         return False
     text = WITNESS['K-C14-a']
@@ -559,8 +732,31 @@ def replay_finding(ctx, finding):
     return a[0] == [1] and a[1] and b[0] == [1] and b[1] and c[0] == [] and c[1]
 
 
+def _fails_injected(text, style):
+    from xdoctest import core, exceptions
+    orig = core.docscrape_google.split_google_docblocks
+
+    def raising(docstr):
+        raise exceptions.MalformedDocstr('injected')
+    core.docscrape_google.split_google_docblocks = raising
+    try:
+        exs, warned, esc = real_docexamples(text, style)
+    finally:
+        core.docscrape_google.split_google_docblocks = orig
+    if esc != 'none' and not esc.startswith('late:'):
+        return {'observed': esc, 'expected_by_spec': 'MalformedDocstr is downgraded to a warning',
+                'api': 'parse_docstr_examples with a splitter that raises MalformedDocstr'}
+    if style == 'google' and esc == 'none' and (exs or not warned):
+        return {'observed': canon_real(exs, warned, esc), 'expected_by_spec': 'no example and a warning'}
+    return None
+
+
 def replay(ctx, failing):
     i = failing['input']
+    if i.get('inject'):
+        f = _fails_injected(i['docstring'], i['style'])
+        print('input: docstring=%r style=%s, splitter raising MalformedDocstr -> %s' % (i['docstring'], i['style'], f or 'contained'))
+        return f is not None
     if 'module' in i:
         f = _module_fails(i['module'], i['style'])
         print('input: generated module, style=%s -> %s' % (i['style'], f or 'siblings collected and runnable'))
